@@ -53,6 +53,10 @@ SHAPES = [
     ("nullable-rhs3", "S: S a a | A A | A S b; A: EMPTY;"),
     ("nullable-tails", "S: P A B | P A C; P: P a | a; A: A a | a; B: EMPTY; C: EMPTY;"),
     ("glr-revisit", "S: b S S | b a | EMPTY;"),
+    ("glr-cyclic-nested", "S: S B A | EMPTY | B B a; A: a; B: a A | S S;"),
+    ("lalr-late-widening", "S: A | a S S; A: EMPTY;"),
+    ("item-then-list", "S: B A; B: b; A: A a | EMPTY;"),
+    ("bottom-up-order", "S: B c | d; A: a S; B: b A;"),
 ]
 
 
@@ -186,3 +190,39 @@ def tiny4_fixed(count=400):
 def tiny3x3_fixed(count=600):
     """Fixed stratified subset of GF-tiny(3) with right-hand sides up to length 3 (41 898 grammars in the family)."""
     return stratified(gf_tiny(3, maxrhs=3), count, 0)
+
+
+def random_grammars(count, seed, nts=("S", "A", "B"), ts=("a", "b", "c"), kmin=5, kmax=8):
+    """Seeded random productive/reachable grammars with three nonterminals (used by C05 and, as a fixed subset, elsewhere)."""
+    rnd = random.Random(seed)
+    out = []
+    nts, ts = list(nts), list(ts)
+    tries = 0
+    while len(out) < count and tries < count * 50:
+        tries += 1
+        k = rnd.randint(kmin, kmax)
+        prods = []
+        for j in range(k):
+            l = "S" if j == 0 else rnd.choice(nts)
+            r = tuple(rnd.choice(nts + ts + ts) for _ in range(rnd.choice([0, 1, 1, 2, 2, 3])))
+            if (l, r) not in prods and r != (l,):
+                prods.append((l, r))
+        used = {l for l, _ in prods}
+        if any(s in nts and s not in used for _, r in prods for s in r):
+            continue
+        terms = {t: ("s", t) for t in ts if any(t in r for _, r in prods)} or {"a": ("s", "a")}
+        prods.sort(key=lambda p: nts.index(p[0]))
+        try:
+            g = GSpec(prods, terms)
+        except AssertionError:
+            continue
+        if set(g.nonterms) != g.productive() or set(g.nonterms) != g.reachable():
+            continue
+        g.name = g.short()
+        out.append(g)
+    return out
+
+
+def random3_fixed(count=300):
+    """Fixed (seed-independent) set of random grammars with 3 nonterminals, 4-6 productions."""
+    return random_grammars(count, 12345, kmin=4, kmax=6)
